@@ -189,7 +189,8 @@ theorem short_pruned_reads_padding (H : List UInt8 → List UInt8) :
     rw [if_pos (by decide), if_pos (by decide +kernel)]
     decide +kernel
   have hspec : Spec.hashAt H shortPrunedChild 0 = [] := by
-    simp only [shortPrunedChild, Spec.hashAt, Spec.hashLevel, Spec.hashAtL, Spec.depthAtL, Spec.storedHash, hb2,
+    simp only [shortPrunedChild, Spec.hashAt, Spec.hashLevel, Spec.hashAtL, Spec.depthAtL, Spec.storedHash,
+      packBytes_eq _ _ rfl, hb2,
       show Spec.level 1 = 1 from by decide]
     rw [if_pos (by decide)]
     decide
